@@ -344,6 +344,14 @@ func vhBuild(ctx int, s []byte) vhCtx {
 		d.sym(w, 256)
 		t := append(w.bytes(), make([]byte, 16)...)
 		lo, hi := verifrt.Param("BLO"), verifrt.Param("BHI")
+		if cnt := verifrt.Param("BCOUNT"); cnt > 1 {
+			// one run sweeps BCOUNT windows, BSTEP bits apart (a case split like the window value)
+			i := int(verifrt.U8())
+			verifrt.Assume(i < cnt)
+			i = verifrt.Concretize(i)
+			lo += i * verifrt.Param("BSTEP")
+			hi += i * verifrt.Param("BSTEP")
+		}
 		first := lo / 8
 		verifrt.Assume(first+len(s) <= len(t))
 		for i := range s {
